@@ -30,6 +30,8 @@ struct VerifState {
     limit_total: AtomicUsize,
     /// set when `outstanding > limit_total` was observed
     violated: AtomicUsize,
+    /// number of `alloc` calls that were refused
+    refused: AtomicUsize,
 }
 
 #[cfg(jxl_oxide_verif)]
@@ -41,6 +43,7 @@ impl VerifState {
             outstanding: AtomicUsize::new(0),
             limit_total: AtomicUsize::new(limit),
             violated: AtomicUsize::new(0),
+            refused: AtomicUsize::new(0),
         }
     }
 }
@@ -73,6 +76,11 @@ impl AllocTracker {
         self.inner.verif.violated.load(Ordering::SeqCst)
     }
 
+    /// Number of `alloc` calls refused so far (budget exhausted or injected fault).
+    pub fn verif_refused(&self) -> usize {
+        self.inner.verif.refused.load(Ordering::SeqCst)
+    }
+
     /// Bytes left in the real budget.
     pub fn verif_bytes_left(&self) -> usize {
         self.inner.bytes_left.load(Ordering::SeqCst)
@@ -100,6 +108,7 @@ impl AllocTracker {
         {
             let n = self.inner.verif.count.fetch_add(1, Ordering::SeqCst);
             if n >= self.inner.verif.fail_from.load(Ordering::SeqCst) {
+                self.inner.verif.refused.fetch_add(1, Ordering::SeqCst);
                 return Err(crate::OutOfMemory::new(bytes));
             }
         }
@@ -126,6 +135,8 @@ impl AllocTracker {
                 })
             }
             Err(left) => {
+                #[cfg(jxl_oxide_verif)]
+                self.inner.verif.refused.fetch_add(1, Ordering::SeqCst);
                 tracing::trace!(bytes, left, "Allocation failed");
                 Err(crate::OutOfMemory::new(bytes))
             }
